@@ -3,7 +3,7 @@ CONSTANTS
   Spellings = {"after_list", "between_lists", "merged", "split", "apart"}
   Idents = {"UserId", "A", "Foo", "FooBar", "HTTPServer", "URL", "Init", "Default", "None"}
   Renames = {"empty", "none", "x", "foo-bar", "init", "$ref"}
-  Kinds = {"unit", "newtype", "struct"}
+  Kinds = {"newtype_opt", "unit", "newtype", "struct"}
   RuleSet = {"none", "lowercase", "UPPERCASE", "PascalCase", "camelCase", "snake_case", "SCREAMING_SNAKE_CASE", "kebab-case", "SCREAMING-KEBAB-CASE"}
   TagPairs = {"type_content", "kind_data"}
   Flavours = {"plain", "recursive"}
